@@ -134,6 +134,11 @@ class Ctx:
                 name = m.group(1)
                 axs = [a.strip() for a in m.group(2).split(",") if a.strip()]
                 good = set(axs) <= ALLOWED_AXIOMS
+                if good and re.search(r"\.(inj|injEq|sizeOf_spec|eq_\d+|eq_def|congr_simp)$", name):
+                    # declarations Lean generates for structures / definitions: audited, but not counted
+                    # as proof obligations of the property
+                    self.cov.setdefault("auto_generated_declarations_not_counted", []).append(name)
+                    continue
                 self.obligations.append((name, axs, good))
                 if not good:
                     self.proof_failures.append(f"theorem {name} depends on non-admitted axioms {axs}")
